@@ -44,7 +44,8 @@ RULE = ("(a) Hypothesis-generated operation histories (up to 30 steps quick / 50
 ASSUMPTIONS = [
     "Namespaces as in the property: houses (House.Names); taskers, framers and loggers of a house (one registry, "
     "Tasker.Names / house.names['tasker']); logs (Log.Names / house.names['log']); frames of a framer (framer.frameNames)",
-    "Registries are cleared only the way Builder.build does it (House.Clear() together with housing.ClearRegistries())",
+    "Registries are cleared only the way Builder.build does it (House.Clear() together with housing.ClearRegistries()); "
+    "houses and framers created before a clear are dead afterwards (never re-assigned or cloned)",
     "A rejected explicit duplicate may still advance the class Counter (not observable in the registry)",
     "Framer.clone is only applied to framers whose store belongs to a house (it calls store.house.assignRegistries())",
     "The shadow class attributes Framer.Counter / Logger.Counter that Registrar creates are removed before each case "
@@ -247,6 +248,11 @@ def run_history(ops):
             house_ns = new_ns("houses", housing.House.Names)
             cur["tasker"] = new_ns("tasker:free", tasking.Tasker.Names)
             cur["log"] = new_ns("log:free", iologging.Log.Names)
+            # houses and framers made before the clear are no longer live: they are not switched to or cloned
+            # any more (their registries stay under observation). Re-assigning a cleared house would bring back
+            # its *store* registry, in which the store of a new house with a recycled name is a duplicate.
+            houses = []
+            framers = []
             labels.add("clear")
         elif kind == "assign":
             if not houses:
